@@ -824,10 +824,20 @@ def splice_fn(repo, file, item_path, sections, trait=None, nth=0, opts=(), canar
     if used:
         rules['X5-ghost'] = rules.get('X5-ghost', 0) + used
     lines, lmap = ed.render(item.start_idx, item.end_idx, file)
+    # closures of the REAL text that no rule rewrote or replaced: Verus accepts some of them (e.g. inside Option::map) but cannot see
+    # through them, so an obligation of a function that still holds one may be unprovable for reasons unrelated to the property
+    closures_left = []
+    code = [k for k in range(body_open + 1, body_close) if toks[k].kind not in ('ws', 'comment', 'doc')]
+    for p, k in enumerate(code):
+        if toks[k].text not in ('|', '||') or k in ed.repl or p == 0:
+            continue
+        prev = toks[code[p - 1]]
+        if prev.text in ('(', ',', '=', '{', ';', 'move', 'return') or (prev.text == '>' and p >= 2 and toks[code[p - 2]].text == '=' and toks[code[p - 2]].pos + 1 == prev.pos):
+            closures_left.append(toks[k].line)
     info = {
         'file': file, 'item': item_path, 'trait': trait,
         'line_start': toks[item.kw_idx].line, 'line_end': toks[item.end_idx].line,
-        'loops': len(loops),
+        'loops': len(loops), 'closures_left': closures_left,
     }
     return lines, lmap, info
 
@@ -1018,6 +1028,7 @@ def build(repo, template_path, canary=False) -> SpliceResult:
             lines, lm, info = splice_fn(repo, kv['file'], kv['item'], sections, kv.get('trait'), int(kv.get('nth', 0)),
                                         opts, is_canary_target, rules, dropped)
             info['role'] = kv.get('role', 'helper')
+            info['closures_ok'] = int(kv.get('closures_ok', 0))
             functions.append(info)
             out.append('// @src %s:%d %s' % (info['file'], info['line_start'], info['item']))
             lmap.append(None)
